@@ -67,7 +67,10 @@ def label_of(ob, proof):
 def write_evidence(uid, ev):
     # VERIF_EVIDENCE_DIR: development runs against a scratch copy of the repository (bin/trypatch) must not overwrite the
     # evidence of the registered checks, which has to come from /repo itself
-    edir = os.environ.get('VERIF_EVIDENCE_DIR') or os.path.join(VERIF, 'evidence')
+    edir = os.environ.get('VERIF_EVIDENCE_DIR')
+    if not edir and os.path.realpath(configure.REPO) != '/repo':
+        edir = os.path.join(configure.scratch_root(), 'evidence')      # a run against a scratch copy (VERIF_REPO) never touches /verif/evidence
+    edir = edir or os.path.join(VERIF, 'evidence')
     os.makedirs(edir, exist_ok=True)
     path = os.path.join(edir, uid + '.json')
     with open(path, 'w') as f:
@@ -267,7 +270,10 @@ def check(uid, tier, seed=0, only=None, keep=False):
 
 
 def make_replay(uid, um, unit, p, r, o, lab, work):
-    rdir = os.path.join(os.environ.get('VERIF_REPLAY_DIR') or os.path.join(VERIF, 'replays'), uid)
+    rbase = os.environ.get('VERIF_REPLAY_DIR')
+    if not rbase and os.path.realpath(configure.REPO) != '/repo':
+        rbase = os.path.join(os.environ.get('VERIF_SCRATCH_BASE', '/tmp'), 'replays-scratch')
+    rdir = os.path.join(rbase or os.path.join(VERIF, 'replays'), uid)
     os.makedirs(rdir, exist_ok=True)
     h = hashlib.sha256(('%s/%s/%s' % (uid, p.id, lab)).encode()).hexdigest()[:10]
     path = os.path.join(rdir, '%s-%s.json' % (re.sub(r'\W+', '_', lab)[:60], h))
